@@ -51,6 +51,15 @@ def ports_part(ctx):
                              classify, label="blackboard.random", line_oracle=read_oracle)
     n += core.diff_component(ctx, "blackboard", ["gen", "--seed", ctx.seed + 5, "--cases", 150 if quick else 4000, "--len", 60 if quick else 100, "ipc"],
                              classify, label="blackboard.ipc", line_oracle=read_oracle)
+    # the same histories through the custom-key path of the language bindings (generator word `custom`: service created with
+    # CustomKeyMarker + __internal_add, every handle through __internal_entry, values written / read through raw pointers);
+    # the Lean driver reads `hmutx` / `hx` as the model calls `hmut` / `hget`
+    n += core.diff_component(ctx, "blackboard", ["gen", "--exhaustive", 3 if quick else 4, "custom"], classify,
+                             label="blackboard.custom.exhaustive", shrink=False, line_oracle=read_oracle)
+    n += core.diff_component(ctx, "blackboard", ["gen", "--seed", ctx.seed, "--cases", 1500 if quick else 40000, "--len", 80 if quick else 120, "custom"],
+                             classify, label="blackboard.custom.random", line_oracle=read_oracle)
+    n += core.diff_component(ctx, "blackboard", ["gen", "--seed", ctx.seed + 5, "--cases", 60 if quick else 1500, "--len", 60 if quick else 100, "ipc", "custom"],
+                             classify, label="blackboard.custom.ipc", line_oracle=read_oracle)
     return n
 
 
@@ -61,7 +70,11 @@ RULE = ("blackboard ports: real Writer / Reader ports of a blackboard service (u
         "Reader::entry (same mistakes), EntryHandle::get / is_up_to_date, drop of the service handle, number_of_writers/readers; objects outliving "
         "their ports (handles and loans after the Writer, read handles after the Reader, everything after the PortFactory), stale and reused labels. "
         "exhaustive: every sequence of 3 (quick) / 4 (thorough) calls from a 20-call alphabet after a fixed prefix, 2 configurations; random: "
-        "mostly-valid histories with about 7 % deliberately invalid calls; local and ipc service variants. Every answer (values, error kinds) is "
+        "mostly-valid histories with about 7 % deliberately invalid calls; local and ipc service variants. The same exhaustive and random histories "
+        "are run a second time through the custom-key path of the C / C++ / Python bindings (service created with CustomKeyMarker, u64 key details, own "
+        "key comparison and __internal_add; Writer::__internal_entry -> __InternalEntryHandleMut with its own Drop, __internal_get_ptr_to_write_cell / "
+        "__internal_update_write_cell, __InternalEntryValueUninit write_cell / update / discard / drop, Reader::__internal_entry -> "
+        "__InternalEntryHandle::get / is_up_to_date, values as raw bytes with the type's size and alignment) against the same model calls. Every answer (values, error kinds) is "
         "compared with the L1 model Iox2.Blackboard; harness oracles independent of the model after every call: at most one live Writer, at most one "
         "registered writer, at most one live write handle or loan per key, registered readers = live readers, every live read handle re-read: "
         "value self-consistent, was written to that key by a completed update, not older than what this handle saw before")
@@ -69,4 +82,5 @@ ASSUMPTIONS = ["every API call is one atomic step of the L1 model; concurrent ac
                "concurrent creation of ports by the container / index-set theorems (C09, C13)",
                "one node, one service handle: ports created through a second PortFactory (opener) use the same dynamic config and entry cells and are not driven separately",
                "assume_init_and_update without a preceding write in the same loan violates the API's safety contract; the harness refuses it (`unwritten`), the model does the same",
-               "the language-binding variants (__InternalEntryHandleMut etc.) share the producer flag / write-cell operations and are not driven here"]
+               "the custom-key (language binding) path is driven from Rust through the __internal_* functions the way iceoryx2-ffi/c calls them (u64 keys, "
+               "the three value layouts above); the C / C++ / Python wrappers above these functions (handle structs, move / drop glue) are not part of this check"]
